@@ -139,6 +139,7 @@ type exec struct {
 	exitAck      chan struct{}
 	syncMaps     map[*value]*gmap
 	mapHashes    map[*value]*[]byte
+	mongoSt      *mongoState
 	hashAbstract bool
 	uidCounter   int
 	preemptFns   map[string]bool
